@@ -29,7 +29,7 @@ NOT_DECIDED = ["termination / liveness for every interleaving (argued from lock 
                "byte-identity with the serial save for every interleaving: follows from L2 (pairwise disjoint ranges fixed "
                "before any worker starts, C07) and the commutation lemma below; the file system itself is trusted",
                "no schedules are explored"]
-BOUNDED = []
+BOUNDED = [{"name": 'C09 parallel vs serial bytes, callback once and never concurrently (also across shards), shared tensor one use at a time, failing worker (bounded, not a proof)', "script": "bounded_extdata.py", "args": ["--prop", 'C09']}]
 
 MON_FIELDS = [("_ByteBudget", "_in_flight"), ("_ByteBudget", "_oversized_active"), ("_ByteBudget", "g_sum"), ("_ByteBudget", "g_over")]
 
